@@ -9,9 +9,6 @@ import (
 
 // NotApplicable lists the properties (or none) that are not claimed at all.
 var NotApplicable = map[string]string{
-	"C11": "not claimed yet: the Append/Parse round trip needs symbolic strconv digit tables and byte-level parsing of symbolic strings; harness under construction (see DESIGN.md section 7)",
-	"C12": "not claimed yet: the parser's character-class forking over fully symbolic strings is being built (see DESIGN.md section 7)",
-	"C13": "not claimed yet: layout reference for %e/%f/%g under construction (see DESIGN.md section 7)",
 	"C15": "not claimed: SetFloat/Float/Float32/Float64 compute inside math/big.Float, whose numeric code is not encoded, and SetFloat64's scaling by a 2**n Decimal needs pow2's precision-limited products; symbolic float64 arithmetic is outside the solvers' reach here (DESIGN.md sections 3 and 7)",
 }
 
